@@ -947,7 +947,7 @@ theorem next_term {C : TCert} {wMax : Nat} (hV : TValid C wMax) (d : Src) (o : O
         exact byteLoop_term hV d o D fuel sc1 hI1 (by simpa using hq1) (by omega) (by omega)
 
 theorem tinv_init (C : TCert) : TInv C Sc.init :=
-  ⟨fun _ _ h => by cases h, trivial, rfl⟩
+  ⟨fun _ _ h => nomatch h, trivial, rfl⟩
 
 theorem q_init {C : TCert} {wMax : Nat} (hV : TValid C wMax) (d : Src) : Q C d 0 Sc.init := by
   unfold Q
